@@ -169,7 +169,7 @@ def trace_item(k, cands, args, events):
         elif e["e"] == "res":
             ev.append({"e": "res", "order": e["order"], "kind": e["kind"], "sel": e["sel"], "rk": e["rk"],
                        "bind": [[v, bind_term(v, t)] for v, t in e["bind"]],
-                       "out": parse_term(e["out"]) if e["kind"] == "ok" else SIG, "tied": e["amb"]})
+                       "out": parse_term(e["out"]) if e["kind"] == "ok" else SIG, "tied": e["amb"], "rej": e["rej"]})
     ev.append({"e": "end"})
     return {"id": k, "prog": {"cands": cands, "args": args}, "ev": ev}
 
